@@ -42,7 +42,7 @@ def cfg_str(cfg):
     cl = cfg['cl'] if isinstance(cfg['cl'], str) else '/'.join(map(str, cfg['cl']))
     return (f"cl={cl};orf={cfg.get('orf', 'max')};w2f={int(bool(cfg.get('w2f')))};"
             f"coding={int(bool(cfg.get('coding')))};bio={cfg.get('bio', 'none')};"
-            f"mintx={cfg.get('mintx')};layout={cfg.get('layout', 'plus1')}")
+            f"mintx={cfg.get('mintx')};layout={cfg.get('layout', 'plus1')}" + (';pool=diff' if cfg.get('pool') else ''))
 
 
 CFG_A = dict(cl='T0', orf='max', w2f=True, coding=False)
@@ -55,6 +55,10 @@ SEL_PRODUCT = [dict(cl='T0', orf='max', w2f=False, coding=c, bio=b, mintx=m)
                for c in (False, True) for b in L.BIOTYPE_FILES for m in (None, -1, 0, 1)]
 LAYOUT_CFGS = [dict(cl='T0', orf='max', w2f=True, coding=False, layout=l) for l in ('minus2', 'plus2')] + \
               [dict(cl='TX', orf='min', w2f=False, coding=True, layout=l) for l in ('minus2', 'plus2')]
+
+
+POOL_CFGS = [dict(cl='T0', orf='max', w2f=False, coding=False, pool='diff'),   # no W>F: images of pool members are MAY
+             dict(cl='TX', orf='min', w2f=False, coding=False, pool='diff')]
 
 
 def special_cfgs(fs):
@@ -99,6 +103,11 @@ def plan(run):
     for k in range(1, 4):
         for toks in strings(std, k):
             jobs.append(('noleft-k<=3', 'base', 'nol', toks, [CFG_A, CFG_B]))
+    # pool independence ("minus the canonical pool" is a set difference): same transcript, two canonical pools
+    for k in range(0, 4 if run.tier != 'thorough' else 5):
+        for toks in strings(std, k):
+            jobs.append(('pool-independence-k<=3' if k <= 3 else 'pool-independence-k=4',
+                         'base' if k <= 3 else f'pool4/{tname(toks[0])}', 'std', toks, POOL_CFGS))
     # thorough space beyond base, in complete sub-blocks
     subs5 = [(a, b) for a in std for b in std]
     if run.tier == 'thorough':
@@ -142,6 +151,10 @@ def work(job):
     out = []
     written = None
     for cfg in cfgs:
+        if cfg.get('pool') == 'diff':
+            out.append(work_pool(fs, toks, nc, cfg, d)[:3])
+            written = None
+            continue
         layout = cfg.get('layout', 'plus1')
         if written != layout:
             shutil.rmtree(d, ignore_errors=True)
@@ -159,12 +172,57 @@ def work(job):
     return block, sub, fs, toks, out
 
 
+def nc_peptides(res):
+    return {s for h, s in res['peptides'] if any(e.startswith(L.TX_N + '|') for e in h.split(' '))}
+
+
+def work_pool(fs, toks, nc, cfg, d, verbose=False):
+    """The statement's 'minus the canonical pool' is a set difference: what is written for a transcript
+    may depend on the pool only through the removal of pool members.  The same non-coding transcript is
+    run next to two different coding transcripts (pools A, B); Out_A - B must equal Out_B - A."""
+    cl = L.cleavage_of(cfg)
+    A, B = L.canon_pool(cl, False), L.canon_pool(cl, True)
+    outs = []
+    for alt in (False, True):
+        shutil.rmtree(d, ignore_errors=True)
+        L.build_ref(nc, 'plus1', alt_coding=alt).write(d)
+        res = L.run_tool(d, cfg, len(nc), d / 'o.fasta', d / 'orf.fasta')
+        if not res['ok'] or res['peptides'] is None:
+            return cfg, [('pool-dependence/crash', dict(exc=res['exc'], alt=alt))], False, set()
+        outs.append(nc_peptides(res))
+    oa, ob = outs
+    if verbose:
+        print('pool A run:', sorted(oa)); print('pool B run:', sorted(ob))
+    F = []
+    for name, lost_in, present_in, own in (('A', oa, ob, A), ('B', ob, oa, B)):
+        for p in sorted(present_in - lost_in - own):
+            kind = 'm-form-in-pool' if ('M' + p) in own else 'other'
+            F.append((f'pool-dependence/lost/{kind}', dict(peptide=p, absent_with_pool=name)))
+    diff = (oa - ob) | (ob - oa)
+    if toks:
+        ek = ('pooldiff', fs, cfg_str(cfg))
+        if ek not in _EMPTY:
+            _EMPTY[ek] = work_pool(fs, (), L.nc_seq((), *FLANKS[fs][::2]), cfg, d)[3]
+        nt = bool(diff - _EMPTY[ek])      # the tokens give a peptide whose presence depends on the pool
+    else:
+        nt = bool(diff)
+    return cfg, F, nt, diff
+
+
 def replay(path):
     r = json.load(open(path))
     print('replaying', r['key'])
     toks, fs, cfg = tuple(r['tokens']), r['flanks'], r['cfg']
     if not isinstance(cfg['cl'], str):
         cfg['cl'] = tuple(cfg['cl'])
+    if cfg.get('pool') == 'diff':
+        left, _, right = FLANKS[fs]
+        nc = L.nc_seq(toks, left, right)
+        print('non-coding transcript:', nc, ' coding proteins:', L.C_PROT, '/', L.C_PROT_ALT)
+        F = work_pool(fs, toks, nc, cfg, vlib.worker_dir() / 'replay', verbose=True)[1]
+        for m, det in F:
+            print('  ', m, det)
+        return 1 if F else 0
     d = vlib.worker_dir() / 'replay'
     seqs, res = run_case(fs, toks, cfg, d)
     print('non-coding transcript:', seqs[L.TX_N])
@@ -234,8 +292,8 @@ def main():
         key = f'{m}@{cid}|{cfg_str(cfg)}' if sub == 'base' else f'{m}@{sub}@{cid}|{cfg_str(cfg)}'
         run.violation(key, f'{m}: tokens={cid} options={cfg_str(cfg)} detail={det}',
                       dict(tokens=list(toks), flanks=fs, cfg=cfg, detail=det, mechanism=m))
-    order = ['options-k<=3', 'selection-k<=2', 'layout-k<=2', 'core-k=4', 'lookbehind-k<=3', 'noleft-k<=3', 'core-k=5',
-             'options-k=4', 'lookbehind-k=4']
+    order = ['options-k<=3', 'selection-k<=2', 'layout-k<=2', 'core-k=4', 'lookbehind-k<=3', 'noleft-k<=3',
+             'pool-independence-k<=3', 'core-k=5', 'options-k=4', 'lookbehind-k=4', 'pool-independence-k=4']
     for name in order:
         if name in blocks:
             ev, nt, ns = blocks[name]
